@@ -347,7 +347,7 @@ def scenario(ctx):
 
 MEM_A = 4 * 1024 * 1024
 MEM_B = 512
-RLIMIT_AS = 6 * 1024 ** 3        # per worker: a runaway allocation becomes MemoryError, not an OOM kill
+RLIMIT_AS = 2560 * 1024 ** 2        # per worker: a runaway allocation becomes MemoryError, not an OOM kill
 
 
 def guarded_deliver(sim, counter, pipe, n, delivered, what):
